@@ -107,7 +107,7 @@ func init() {
 		ID:     "C09",
 		Word32: true,
 		Level:  "exploration",
-		Rule: "E1 bounded-exhaustive enumeration: sources (s,from,to) = every string of length ≤3 over a small byte alphabet, every byte value as a one-byte string, also behind stems of 7/8/9 (thorough: 15/16/17) bytes in 4 variants (first byte 's' / 0x00 / 0xff, eighth byte 0x80), × every 0 ≤ from ≤ to ≤ 8·len, plus a byte-lane sweep (8-byte words with a class byte 'a'/80/ff in lane L and the difference in lane D, every ordered pair of lanes, alone and followed by one byte), plus EVERY stem length 0..40 with the last 10 bit positions as ends (stemmed: from in {0,8}, to around the stem end and in the tail); per source Len(New(..)) and Cmp with the canonical encoding of the same bit string must be 0; Cmp on ALL ordered pairs of canonical encodings (one per distinct bit string); " +
+		Rule: "E1 bounded-exhaustive enumeration: sources (s,from,to) = every string of length ≤3 over a small byte alphabet, every byte value as a one-byte string, also behind stems of 7/8/9 (thorough: 15/16/17) bytes in 4 variants (first byte 's' / 0x00 / 0xff, eighth byte 0x80), × every 0 ≤ from ≤ to ≤ 8·len, plus a from sweep (every start bit of strings of 9 / 17 / 33 bytes with ends at the start, one bit on and at the last two positions), plus a byte-lane sweep (8-byte words with a class byte 'a'/80/ff in lane L and the difference in lane D, every ordered pair of lanes, alone and followed by one byte), plus EVERY stem length 0..40 with the last 10 bit positions as ends (stemmed: from in {0,8}, to around the stem end and in the tail); per source Len(New(..)) and Cmp with the canonical encoding of the same bit string must be 0; Cmp on ALL ordered pairs of canonical encodings (one per distinct bit string); " +
 			"plus 96 sources of 2^8 and 2^12 (±1) bytes compared in all pairs, and 48 sources of 2^16 (±1) bytes (thorough also 2^20+1) in all ordered pairs: Len, Cmp both ways, CmpUpto, StrCmpUpto against a byte-wise reference; CmpUpto and StrCmpUpto (from a fixed alphabet of call frames, after poisoning the dead stack with 0x00 and 0xff) on plain strings × all canonical encodings. Oracle: Go string comparison of '0'/'1' renderings (lexicographic, proper prefix first). A case is one call; non-trivial when both bit strings are non-empty.",
 		Assumptions: []string{
 			"byte values outside the alphabet and longer strings are not enumerated; lengths straddle the 8-byte fast-path switch through the stems",
@@ -246,6 +246,22 @@ func c09Sources(c *mc.Ctx) []c09Src {
 						if to >= from && from <= n {
 							out = append(out, c09Src{gen.Bytes(s), from, to})
 						}
+					}
+				}
+			}
+		}
+	}
+	// FROM sweep on longer strings: every start bit 0..8*len of strings of 9, 17 and 33 bytes (two stem
+	// variants, tail 0x80) with ends right at the start, one bit on, and at the last two positions - New keeps
+	// the bytes from 8*floor(from/8) on, wherever that lies relative to the 8-byte words of the string
+	for _, st := range []int{8, 16, 32} {
+		for _, v := range []int{0, 2} {
+			s := c09StemV(st, v) + "\x80"
+			n := int32(8 * len(s))
+			for from := int32(0); from <= n; from++ {
+				for _, to := range []int32{from, from + 1, n - 1, n} {
+					if to >= from && to <= n {
+						out = append(out, c09Src{gen.Bytes(s), from, to})
 					}
 				}
 			}
